@@ -25,13 +25,14 @@ ALPHABET = {
               S("G20"), S("G21"), S("G90"), S("G91"), S("G28"), S("G28", "X"), S("G28", "X0 Z"),
               S("G92", ""), S("G92", "E#"), S("G92", "X# Y# Z#"), S("G92", "X"), S("M206", "X# Y#"), S("M206", "Z"),
               S("G1", "X# Y# E#")],
+    "enter": [S("G1", "X# Y#"), S("G1", "X# Y# E#")],
     "frame": [S("G20"), S("G91"), S("G92", "X# Y# Z#"), S("M206", "X# Y#"), S("G1", "X# Y# E#")],
     "other": [S("M105"), S("T0"), S("T1"), S("G5", "X# Y#"), S("M204", "P# T#"), S("M204", ""), S("M117", "S1"),
               S("G4", "P#"), S("M73", "P# R#"), S("M999"), S("G1", "X# Y#"), S("G38.2", "Z#")],
 }
 
 
-def scen(w, template="linear,linear", entry="hook", S_=3, regions=1):
+def scen(w, template="linear,linear", entry="hook", S_=3, regions=1, kinds="rd", indent=0):
     names = template.split(",")
     stream = (entry == "stream")
     pipe = pl.Pipe(w, w.flag("g90e"), extended={"G4": "exclude", "M204": "merge", "M117": "last", "M73": "merge"},
@@ -43,7 +44,7 @@ def scen(w, template="linear,linear", entry="hook", S_=3, regions=1):
         trig.LIGHT[0] = True
         values.HYPOT_LIGHT[0] = True
     if regions and w.flag("with-region"):
-        kind = "rect" if w.choose(2, "rkind") == 0 else "disc"
+        kind = "rect" if (kinds == "r" or w.choose(2, "rkind") == 0) else "disc"
         pipe.add_region(pl.fresh_region(w, kind, "r0"))
     pipe.feed("G28", catch=False)
     proc = None
@@ -55,6 +56,8 @@ def scen(w, template="linear,linear", entry="hook", S_=3, regions=1):
         shape = shapes[w.choose(len(shapes), "shape")]
         w.cover("shape-" + shape.tag)
         text, _ = pl.render(w, shape, pipe.k)
+        if indent and w.flag("indented"):
+            text = "  " + text      # leading blanks are legal in a file line
         if stream:
             pipe.program.append(text)
             w.note("program", list(pipe.program))
@@ -101,20 +104,22 @@ META = {
 def plan(tier):
     out = []
 
-    def add(name, template, entry="hook", S_=3):
+    def add(name, template, entry="hook", S_=3, kinds="rd", indent=0):
         names = template.split(",")
         SCENARIOS[name] = scen
         cov = sorted(set("shape-" + s.tag for n in names for s in ALPHABET[n]))
-        out.append(Scenario(name, scen, params={"template": template, "entry": entry, "S_": S_},
+        out.append(Scenario(name, scen, params={"template": template, "entry": entry, "S_": S_, "kinds": kinds,
+                                                "indent": indent},
                             cover=cov, bounds={"K": len(names), "S": S_, "entry": entry,
                                                "alphabet": {n: [s.tag for s in ALPHABET[n]] for n in set(names)}}))
     add("hook-linear", "linear,linear")
     add("hook-state", "state,state")
     add("hook-other", "other,state")
     add("hook-arcs", "arcs", S_=2)
-    add("hook-frame-arcs", "frame,arcs", S_=2)
+    add("hook-frame-arcs", "frame,arcs", S_=2, kinds="r")
     add("stream-state", "state,linear", entry="stream")
-    add("stream-arcs", "arcs", entry="stream", S_=2)
+    add("stream-enter-state", "enter,state", entry="stream", indent=1)
+    add("stream-arcs", "arcs", entry="stream", S_=2, kinds="r")
     if tier == "thorough":
         add("hook-state-arcs", "state,arcs", S_=2)
         add("hook-arcs-arcs", "arcs,arcs", S_=3)
